@@ -34,4 +34,21 @@ theorem qual_agreement (cfg : Cfg) (hv : cfg.variant = .rabin) (A B : Node) (idx
     rw [h2] at hx; cases hx
     exact ⟨_, h1, by unfold Vss.certified at hcert ⊢; simp only at hcert ⊢; rw [hc]; exact hcert⟩
 
+/-- `qual_agreement` with "has heard everybody" read off the messages: every slot is filled already (the node's own
+verdict, the dealer's approval) or the node processes a valid response of the session from that participant. -/
+theorem qual_agreement_of_messages (cfg : Cfg) (hv : cfg.variant = .rabin) (A B : Node) (idx : Nat) (v : Nat → Bool)
+    (a b : Agg) (hneA : idx ≠ A.me) (hneB : idx ≠ B.me) (hwA : WF cfg A.me A) (hwB : WF cfg B.me B)
+    (hlA : A.verifiers.lookup idx = some ⟨.verifier A.me, some a⟩)
+    (hlB : B.verifiers.lookup idx = some ⟨.verifier B.me, some b⟩)
+    (ha : Inv cfg a) (hb : Inv cfg b) (hca : Consistent a v) (hcb : Consistent b v)
+    (hbad : a.badDealer = b.badDealer) (htmo : a.timeout = b.timeout) (ht : a.t = b.t)
+    (la lb : List Resp) (hla : ∀ r ∈ la, r.ap = v r.idx) (hlb : ∀ r ∈ lb, r.ap = v r.idx)
+    (hva : ∀ r ∈ la, r.sg = true ∧ respSidOk cfg a r.sid = true ∧ r.idx < cfg.n)
+    (hvb : ∀ r ∈ lb, r.sg = true ∧ respSidOk cfg b r.sid = true ∧ r.idx < cfg.n)
+    (hcova : ∀ i < cfg.n, (a.responses.lookup i).isSome = true ∨ ∃ r ∈ la, r.idx = i)
+    (hcovb : ∀ i < cfg.n, (b.responses.lookup i).isSome = true ∨ ∃ r ∈ lb, r.idx = i) :
+    idx ∈ qual cfg (run cfg A (la.map (respCall idx))) ↔ idx ∈ qual cfg (run cfg B (lb.map (respCall idx))) :=
+  qual_agreement cfg hv A B idx v a b hneA hneB hwA hwB hlA hlB ha hb hca hcb hbad htmo ht la lb hla hlb
+    (all_heard cfg a la hva hcova) (all_heard cfg b lb hvb hcovb)
+
 end Kyber.RabinDkg
